@@ -76,6 +76,13 @@ pub fn architectures() -> Vec<Value> {
                "layers": [{"kind": "dense", "out": 6, "act": "leaky", "bias": true},
                           {"kind": "dense", "out": 3, "act": "softmax", "bias": true}],
                "objective": {"kind": "ce"}, "optimizer": {"kind": "adamw", "lr": 0.01, "decay": 0.01}}),
+        // two feedback blocks in one network (each block keeps its own copy of the network's optimizer)
+        json!({"name": "two-blocks-adam", "ints": false, "input": [3], "out": 2,
+               "layers": [{"kind": "dense", "out": 4, "act": "tanh", "bias": true},
+                          {"kind": "feedback", "loops": 2, "acc": "mean", "layers": [{"kind": "dense", "out": 4, "act": "tanh", "bias": true}]},
+                          {"kind": "feedback", "loops": 2, "acc": "mean", "layers": [{"kind": "dense", "out": 4, "act": "tanh", "bias": false}]},
+                          {"kind": "dense", "out": 2, "act": "linear", "bias": false}],
+               "objective": {"kind": "mse"}, "optimizer": {"kind": "adam", "lr": 0.01}}),
         // several filters in top-level deconvolution and convolution layers under a stateful optimizer (one state slot each)
         json!({"name": "deconv-multifilter-adam", "ints": false, "input": [1, 3, 3], "out": 2,
                "layers": [{"kind": "deconv", "filters": 2, "kernel": [2, 2], "stride": [1, 1], "padding": [0, 0], "act": "tanh"},
@@ -243,6 +250,25 @@ fn replay_schedule(case: &Value, rep: &mut Report, rng: &mut Rng) {
             let h = run_reference(&mut r, &arch, &data, &case["updates"], &case["train"]);
             (h, nets::all_params(&r))
         });
+        // a second `learn` call on the same network continues the same descent (optimizer state carried over, step
+        // numbers starting again at 1 as the schedule says): compared with the reference continued the same way
+        let second = guarded(|| {
+            a.learn(&refs(&data.inputs), &refs(&data.targets), None, b, e as i32, None);
+            run_reference(&mut r, &arch, &data, &case["updates"], &case["train"]);
+            (nets::all_params(&a), nets::all_params(&r))
+        });
+        if let (Ok(_), Ok(_), Ok((wa2, wr2))) = (&learned, &reference, &second) {
+            let fa: Vec<f32> = wa2.iter().flatten().cloned().collect();
+            let fr: Vec<f32> = wr2.iter().flatten().cloned().collect();
+            if fa.iter().chain(fr.iter()).all(|x| x.is_finite()) {
+                rep.checks += 1;
+                if let Some(d) = diff_flat_close(&fa, &fr, 1e-5) {
+                    rep.mismatch("C04", "second_learn_call_differs_from_continued_reference_descent", &id, json!({"arch": name, "diff": d}), case);
+                }
+            }
+        } else if let (Ok(_), Ok(_), Err(e)) = (&learned, &reference, &second) {
+            rep.mismatch("C04", "second_learn_call_panicked", &id, json!({"arch": name, "panic": e}), case);
+        }
         match (learned, reference) {
             (Ok(((train, val, acc), wa)), Ok((href, wr))) => {
                 let exact = arch["ints"].as_bool().unwrap_or(false);
@@ -1230,7 +1256,9 @@ pub fn record_optslots(seed: u64, tier: &str, trace: &mut Vec<Value>, rep: &mut 
         match run_job(&spec, false) {
             Err(msg) => rep.mismatch("C03", "training_panicked_in_slot_driver", "optslots", json!({"panic": msg, "arch": arch}), &json!({})),
             Ok(res) => {
-                trace.push(json!({"event": "Net", "run": runs, "layers": slot_arch(&arch)}));
+                let lr = arch["optimizer"].get("lr").and_then(|v| v.as_f64()).unwrap_or(0.1) as f32;
+                trace.push(json!({"event": "Net", "run": runs, "layers": slot_arch(&arch),
+                                  "optimizer": {"kind": arch["optimizer"]["kind"], "lr_bits": lr.to_bits()}}));
                 for line in res.events {
                     let v: Value = serde_json::from_str(&line).unwrap();
                     if v["event"] == "Update" || v["event"] == "OptUpdate" {
